@@ -15,11 +15,6 @@ operations that go through `members_position`, `p.ms ≠ []` (`numpy.max` of an 
 namespace OFCore
 open OFCore.Grp
 
-theorem range_map_spec {β} (n : Nat) (F : Nat → β) :
-    ((List.range n).map F).length = n ∧ ∀ g, g < n → ((List.range n).map F)[g]? = some (F g) := by
-  refine ⟨by simp, fun g hg => ?_⟩
-  rw [List.getElem?_map, List.getElem?_range hg]; rfl
-
 /-! Concrete population used by the non-vacuity examples: five persons stored interleaved in
 groups 0 and 2 of a simulation with four groups (groups 1 and 3 — the last — have no member);
 roles: parent = {first_parent 0, second_parent 1} (max 2), child 2, ref 3 (max 1). -/
@@ -30,7 +25,8 @@ def exParent : Role := ⟨1000000, [0, 1], some 2⟩
 def exChild : Role := ⟨2, [], none⟩
 def exRef : Role := ⟨3, [], some 1⟩
 
-theorem exPop_wf : exVals.length = exPop.ms.length ∧ exBools.length = exPop.ms.length ∧
+/-- the example population satisfies the well-formedness hypotheses of every theorem below -/
+example : exVals.length = exPop.ms.length ∧ exBools.length = exPop.ms.length ∧
     (∀ m ∈ exPop.ms, m.group < exPop.n) ∧ exPop.ms ≠ [] := by decide
 
 /-! ## sum -/
@@ -166,12 +162,24 @@ theorem C10_from_role_def {α} (p : Pop) (a : List α) (r : Role) (d : α) (hmax
   have h := range_map_spec p.n (fun g => (valuesOf p (some r) g a).head?.getD d)
   exact ⟨_, valueFromPerson_eq p a r d hmax hlen hg hu, h.1, h.2⟩
 
-/-- a role that is not declared unique is refused -/
-theorem C10_from_role_refused {α} (p : Pop) (a : List α) (r : Role) (d : α) (hmax : r.max ≠ some 1) :
-    ∃ e, valueFromPerson p a r d = .error e := by
-  unfold valueFromPerson valueFromPersonWith
-  rw [if_pos hmax]
-  exact ⟨_, rfl⟩
+/-- a role that is not declared unique (`max != 1`), or that two members of some group hold, is
+refused -/
+theorem C10_from_role_refused {α} (p : Pop) (a : List α) (r : Role) (d : α) :
+    (r.max ≠ some 1 → ∃ e, valueFromPerson p a r d = .error e) ∧
+    (a.length = p.ms.length → (∀ m ∈ p.ms, m.group < p.n) →
+      (∃ g, g < p.n ∧ 2 ≤ (valuesOf p (some r) g a).length) →
+      ∃ e, valueFromPerson p a r d = .error e) := by
+  constructor
+  · intro hmax
+    unfold valueFromPerson valueFromPersonWith
+    rw [if_pos hmax]
+    exact ⟨_, rfl⟩
+  · rintro hlen hg ⟨g, hgn, h2⟩
+    exact valueFromPerson_nonunique p a r d hlen hg g hgn h2
+
+example : (∃ e, valueFromPerson exPop exVals exChild 0 = .error e) ∧
+    (∃ e, valueFromPerson ⟨2, [⟨0, 3⟩, ⟨0, 3⟩, ⟨1, 3⟩]⟩ [1, 2, 3] exRef (0 : Int) = .error e) :=
+  ⟨⟨_, rfl⟩, ⟨_, rfl⟩⟩
 
 example : exRef.max = some 1 ∧ (∀ g, g < exPop.n → (valuesOf exPop (some exRef) g exVals).length ≤ 1) ∧
     valueFromPerson exPop exVals exRef 0 = .ok [4, 0, 0, 0] := ⟨rfl, by decide, rfl⟩
@@ -234,10 +242,6 @@ example : membersPosition exPop.ids = .ok [0, 0, 1, 1, 2] := rfl
 
 /-! ## ranks within a group -/
 
-/-- the persons of group `g` that satisfy the condition, by index, in storage order -/
-def rankedIn (p : Pop) (cond : List Bool) (g : Nat) : List Nat :=
-  (List.range p.ms.length).filter fun i => (p.ms.getD i default).group == g && cond.getD i false
-
 theorem C10_rank_perm (p : Pop) (crit : List Int) (cond : List Bool)
     (hc : crit.length = p.ms.length) (hb : cond.length = p.ms.length) (hne : p.ms ≠ [])
     (hg : ∀ m ∈ p.ms, m.group < p.n) :
@@ -298,6 +302,44 @@ theorem C10_rank_perm (p : Pop) (crit : List Int) (cond : List Bool)
 example : getRank exPop exVals [true, true, true, true, true] = .ok [1, 0, 2, 1, 0] ∧
     getRank exPop exVals exBools = .ok [0, -1, 1, 0, -1] ∧
     rankedIn exPop exBools 0 = [0, 2] := ⟨rfl, rfl, rfl⟩
+
+/-- `numpy.argsort` is not stable and every row of the position matrix has ties (the `inf`
+paddings and the persons outside the condition).  With criteria that are distinct among the
+persons of a group satisfying the condition — the claim domain — any permutation sorting the
+rows gives the same ranks as the model's stable sort. -/
+theorem C10_rank_ties_irrelevant (sort1 : List EInt → List Nat)
+    (hsort : ∀ row, SortsRow row (sort1 row)) (p : Pop) (crit : List Int) (cond : List Bool)
+    (hc : crit.length = p.ms.length) (hb : cond.length = p.ms.length) (hne : p.ms ≠ [])
+    (hg : ∀ m ∈ p.ms, m.group < p.n)
+    (hdist : ∀ i j, i < p.ms.length → j < p.ms.length →
+      (p.ms.getD i default).group = (p.ms.getD j default).group →
+      cond.getD i false = true → cond.getD j false = true → crit.getD i 0 = crit.getD j 0 → i = j) :
+    getRankWith sort1 p crit cond = getRank p crit cond := by
+  have hidg : ∀ i, p.ids.getD i 0 = (p.ms.getD i default).group := fun i =>
+    getD_map' p.ms (·.group) i default
+  apply getRankWith_eq_getRank p crit cond hc hb sort1 hsort hne hg
+  intro i j hi hj hgrp
+  rw [hidg, hidg] at hgrp
+  exact hdist i j hi hj hgrp
+
+/-- the hypotheses are satisfiable (the stable sort is a sorting permutation; the example has
+distinct criteria), a row has several sorting permutations (ties in either order), and a sorter
+that breaks ties the other way round gives the same ranks on the example -/
+example : (∀ row, SortsRow row (argsortE row)) ∧
+    (∀ i j, i < exPop.ms.length → j < exPop.ms.length →
+      (exPop.ms.getD i default).group = (exPop.ms.getD j default).group →
+      exBools.getD i false = true → exBools.getD j false = true →
+      exVals.getD i 0 = exVals.getD j 0 → i = j) ∧
+    argsortE [.fin 3, .posInf, .fin 4, .posInf] = [0, 2, 1, 3] ∧
+    SortsRow [.fin 3, .posInf, .fin 4, .posInf] [0, 2, 3, 1] ∧
+    getRankWith (fun row => (argsortE row.reverse).map (row.length - 1 - ·)) exPop exVals exBools
+      = getRank exPop exVals exBools :=
+  ⟨argsortE_sortsRow,
+   fun i j hi hj => (by decide : ∀ i ∈ List.range 5, ∀ j ∈ List.range 5,
+      (exPop.ms.getD i default).group = (exPop.ms.getD j default).group →
+      exBools.getD i false = true → exBools.getD j false = true →
+      exVals.getD i 0 = exVals.getD j 0 → i = j) i (List.mem_range.mpr hi) j (List.mem_range.mpr hj),
+   rfl, ⟨by decide, by decide⟩, rfl⟩
 
 /-! ## chained projections -/
 
@@ -369,6 +411,64 @@ example : chainCall exPop 0 .person [.entity] (fun _ => groupSum exPop exVals no
     chainCall exPop 0 .group [.firstPerson, .entity] (fun _ => groupSum exPop exVals none) = .ok [2, 0, 0, 0] ∧
     chainCall exPop 0 .group [.role exRef, .entity] (fun _ => groupSum exPop exVals none) = .ok [2, 0, 0, 0] :=
   ⟨rfl, rfl, rfl⟩
+
+/-! ## refusals: wrong array sizes, nobody in the simulation -/
+
+theorem C10_refusals (p : Pop) :
+    -- an array that does not have one value per person (per group, for `project`)
+    (∀ (a : List Int) role, a.length ≠ p.ms.length →
+      (∃ e, groupSum p a role = .error e) ∧ (∃ e, groupMin p a role = .error e) ∧
+      (∃ e, groupMax p a role = .error e)) ∧
+    (∀ (b : List Bool) role, b.length ≠ p.ms.length →
+      (∃ e, groupAny p b role = .error e) ∧ (∃ e, groupAll p b role = .error e)) ∧
+    (∀ {α} k (a : List α) d, a.length ≠ p.ms.length → ∃ e, valueNth p k a d = .error e) ∧
+    (∀ {α} (x : List α) z role, x.length ≠ p.n → ∃ e, project p x z role = .error e) ∧
+    -- nobody: the operations that go through the member positions raise, the others answer
+    (p.ms = [] →
+      (∀ {α} k (a : List α) d, ∃ e, valueNth p k a d = .error e) ∧
+      (∀ (b : List Bool) role, ∃ e, groupAll p b role = .error e) ∧
+      (∀ crit cond, ∃ e, getRank p crit cond = .error e) ∧
+      groupSum p [] none = .ok (List.replicate p.n 0) ∧
+      nbPersons p none = .ok (List.replicate p.n 0)) := by
+  refine ⟨?_, ?_, ?_, ?_, ?_⟩
+  · intro a role h
+    refine ⟨?_, ?_, ?_⟩
+    · unfold groupSum; rw [if_pos h]; exact ⟨_, rfl⟩
+    · unfold groupMin reduce; rw [if_pos (by simpa using h)]; exact ⟨_, rfl⟩
+    · unfold groupMax reduce; rw [if_pos (by simpa using h)]; exact ⟨_, rfl⟩
+  · intro b role h
+    refine ⟨?_, ?_⟩
+    · unfold groupAny groupAnyI groupSum; rw [if_pos (by simpa using h)]; exact ⟨_, rfl⟩
+    · unfold groupAll reduce; rw [if_pos h]; exact ⟨_, rfl⟩
+  · intro α k a d h
+    unfold valueNth valueNthWith; rw [if_pos h]; exact ⟨_, rfl⟩
+  · intro α x z role h
+    unfold project; rw [if_pos h]; exact ⟨_, rfl⟩
+  · intro hms
+    have hids : p.ids = [] := by simp [Pop.ids, hms]
+    refine ⟨?_, ?_, ?_, ?_, ?_⟩
+    · intro α k a d
+      unfold valueNth valueNthWith
+      by_cases h : a.length ≠ p.ms.length
+      · rw [if_pos h]; exact ⟨_, rfl⟩
+      · rw [if_neg h, hids]; exact ⟨_, rfl⟩
+    · intro b role
+      unfold groupAll reduce
+      by_cases h : b.length ≠ p.ms.length
+      · rw [if_pos h]; exact ⟨_, rfl⟩
+      · rw [if_neg h, hids]; exact ⟨_, rfl⟩
+    · intro crit cond
+      unfold getRank getRankWith
+      rw [hids]; exact ⟨_, rfl⟩
+    · unfold groupSum
+      rw [if_neg (by simp [hms])]
+      simp [hids, bincountW, bcLen, bcLoop]
+    · unfold nbPersons
+      simp [hids, bincount, bincountW, bcLen, bcLoop]
+
+example : (∃ e, groupSum exPop [1, 2] none = .error e) ∧
+    (∃ e, valueNth ⟨2, []⟩ 0 ([] : List Int) 0 = .error e) ∧ groupSum ⟨2, []⟩ [] none = .ok [0, 0] :=
+  ⟨⟨_, rfl⟩, ⟨_, rfl⟩, rfl⟩
 
 /-! ## one element per group of the simulation, groups without any member included -/
 
